@@ -144,6 +144,18 @@ func methodSrc(pre string, m Method, ver int) string {
 		ca = fmt.Sprintf(" (list %d a)", m.F)
 	}
 	id := fmt.Sprintf("%d.%d", m.F, ver)
+	if m.Err {
+		// the marker, then an error
+		head := "(defmethod (" + fname(pre, m.F) + " :" + m.Kind + " :" + m.Msg + ")"
+		switch m.Kind {
+		case "whopper":
+			head = "(defwhopper (" + fname(pre, m.F) + " :" + m.Msg + ")"
+		case "primary":
+			head = "(defmethod (" + fname(pre, m.F) + " :" + m.Msg + ")"
+		}
+		tag := map[string]string{"whopper": "w", "primary": "p", "before": "b", "after": "a"}[m.Kind]
+		return fmt.Sprintf(`%s %s (c11-tr "%s%s"%s) (error "c11 %s%s") nil)`, head, ll, tag, id, a, tag, id)
+	}
 	switch m.Kind {
 	case "whopper":
 		if m.Stop {
@@ -167,6 +179,10 @@ type live struct {
 	fi   *flavors.Instance
 	m    *inst
 	name string
+	// after: the kind of the last failed send this instance received
+	after string
+	// tainted: the instance was found damaged; nothing more is judged on it
+	tainted bool
 }
 
 type monitor struct {
@@ -180,9 +196,6 @@ type monitor struct {
 	rich     bool
 	sample   map[string]any
 	failures int
-	scratch  map[int]*live
-	// unhandled messages are sent once per flavor
-	unhandledSent map[tm]bool
 	// quiet: the reference-order run of the relation monitor: nothing is
 	// judged against the model, observations are only recorded
 	quiet bool
@@ -369,18 +382,33 @@ func (k *monitor) judgeSend(what string, t int, msg, path string, e *expect, got
 		k.sample = map[string]any{"flavor": t, "msg": msg, "path": path, "trace": got, "late": lateNames[late]}
 	}
 	desc := fmt.Sprintf("%s: (%s f%d :%s) late=%s", what, path, t, msg, lateNames[late])
-	if err != nil {
+	if e.errs {
+		switch {
+		case err == nil:
+			k.fail(sigFor(late, "error-lost", "-", mc, path), "%s returned %s although a daemon signals an error; model trace %v, ran %v", desc, sl.Show(res), e.trace(), got)
+			return false
+		case err.Internal:
+			k.fail(sigFor(late, "internal-fault", "-", mc, path), "%s => %s; model trace %v", desc, err, e.trace())
+			return false
+		}
+		x.Cover("send:daemon-signals-error")
+	} else if err != nil {
 		if err.Internal {
 			if e.handled {
 				k.fail(sigFor(late, "internal-fault", "-", mc, path), "%s => %s; model trace %v", desc, err, e.trace())
 				return false
 			}
-			x.Cover("send:unhandled-internal-fault(not judged here)")
+			k.fail("fail=internal-fault in=unhandled-message", "%s => %s", desc, err)
+			return false
 		} else if e.handled {
 			k.fail(sigFor(late, "error", "-", mc, path), "%s => %s; model trace %v", desc, err, e.trace())
 			return false
 		}
 		x.Cover("send:unhandled-error")
+	}
+	if !e.handled && err == nil {
+		k.fail("fail=no-error in=unhandled-message", "%s returned %s without signalling an error", desc, sl.Show(res))
+		return false
 	}
 	class, daemon := judgeTrace(e, got)
 	if class != "" {
@@ -411,6 +439,32 @@ func (k *monitor) resync(lv *live) {
 func (k *monitor) checkSlots(what string, lv *live) {
 	want := lv.m.varNames()
 	var recd []string
+	if !k.quiet && !lv.tainted {
+		// the instance is still itself: self is the instance and it has
+		// exactly the variables of its flavor
+		self, _ := lv.fi.SlotValue(slip.Symbol("self"))
+		var names []string
+		for _, n := range lv.fi.SlotNames() {
+			if n != "self" {
+				names = append(names, n)
+			}
+		}
+		sort.Strings(names)
+		after := lv.after
+		if after == "" {
+			after = "no-failed-send"
+		}
+		if self != lv.obj || !eqs(names, want) {
+			lv.tainted = true
+			k.fail("fail=instance-clobbered after="+after, "%s: after a failed send (%s) the instance of f%d has self = %s and variables %v; "+
+				"self must be the instance and the variables %v", what, after, lv.m.t, sl.Show(self), names, want)
+			return
+		}
+		k.x.Cover("instance-intact after=" + after)
+	}
+	if lv.tainted {
+		return
+	}
 	for _, n := range want {
 		v, has := lv.fi.SlotValue(slip.Symbol(n))
 		recd = append(recd, n+"="+sl.Show(v))
@@ -479,7 +533,97 @@ func (k *monitor) makeInst(what string, t int, kv []kwarg) (*live, *sl.Err) {
 	return lv, nil
 }
 
+// evalGuarded evaluates form under ignore-errors, the Lisp-level handling of
+// a failed send; a handled condition comes back as an *sl.Err.
+func (k *monitor) evalGuarded(form string) (slip.Object, *sl.Err) {
+	res, err := k.eval("(multiple-value-list (ignore-errors " + form + "))")
+	if err != nil {
+		return nil, err
+	}
+	l, _ := res.(slip.List)
+	if len(l) == 2 && l[0] == nil {
+		if cond, ok := l[1].(slip.Instance); ok {
+			if ce := sl.Classify(cond); ce != nil {
+				ce.Class = "handled:" + ce.Class
+				return nil, ce
+			}
+		}
+	}
+	if 0 < len(l) {
+		return l[0], nil
+	}
+	return nil, nil
+}
+
+// failSend sends something that cannot succeed (unknown message, wrong
+// number of arguments) to a kept instance.
+func (k *monitor) failSend(lv *live, kind, form string, mustFail bool) {
+	if lv.tainted {
+		return
+	}
+	trace = trace[:0]
+	res, err := k.evalGuarded(form)
+	got := append([]string{}, trace...)
+	lv.after = kind
+	k.forms = append(k.forms, "["+strings.ReplaceAll(form, lv.name, fmt.Sprintf("f%d-instance", lv.m.t))+"]")
+	switch {
+	case err != nil && err.Internal:
+		k.fail("fail=internal-fault in="+kind, "%s => %s", form, err)
+		lv.tainted = true
+	case err != nil:
+		k.x.Cover("failed-send:" + kind + " signalled")
+	case mustFail:
+		k.fail("fail=no-error in="+kind, "%s returned %s without signalling an error", form, sl.Show(res))
+	default:
+		k.x.Cover("failed-send:" + kind + " returned normally")
+	}
+	if kind == "unhandled-message" && 0 < len(got) {
+		k.fail("fail=daemons-ran in="+kind, "%s ran %v", form, got)
+	}
+}
+
+// sweepBoth sends every message of the case to one instance through both
+// paths and compares its variables afterwards.
+func (k *monitor) sweepBoth(what string, lv *live) {
+	for _, msg := range messageUniverse(k.c) {
+		k.send(what, lv, msg, "send")
+		k.send(what, lv, msg, "bound")
+	}
+	k.checkSlots(what, lv)
+}
+
+// victimBlock: failed sends to a kept instance, each followed by the full
+// sweep: the instance must be what the model says, i.e. unchanged by the
+// failed send beyond what daemons that ran did.
+func (k *monitor) victimBlock(t int) {
+	lv, err := k.makeInst("victim", t, nil)
+	if err != nil {
+		return
+	}
+	probe, _ := k.w.newInst(t, nil)
+	n := 0
+	for _, msg := range []string{"m", "n"} {
+		// these messages have no accessor primaries: no daemon changes a variable
+		if k.w.send(probe, msg, 7).handled {
+			k.failSend(lv, "wrong-argument-count", "(send "+lv.name+" :"+msg+")", false)
+			k.failSend(lv, "wrong-argument-count", "(send "+lv.name+" :"+msg+" 7 8)", false)
+			n++
+		}
+	}
+	if 0 < n {
+		k.sweepBoth("after-wrong-argument-count", lv)
+	}
+	k.failSend(lv, "unhandled-message", "(send "+lv.name+" :c11-no-such-message 7)", true)
+	k.checkSlots("after-unhandled-message directly", lv)
+	k.failSend(lv, "unhandled-message", "(send "+lv.name+" :c11-no-such-message)", true)
+	k.sweepBoth("after-unhandled-message", lv)
+	k.x.Cover("victim-blocks")
+}
+
 func (k *monitor) send(what string, lv *live, msg, path string) {
+	if lv.tainted {
+		return
+	}
 	var arg val
 	if 0 < arity(msg) {
 		arg = 7
@@ -491,26 +635,8 @@ func (k *monitor) send(what string, lv *live, msg, path string) {
 	}
 	t := lv.m.t
 	unhandled := !k.w.send(&probe, msg, arg).handled
-	if unhandled {
-		// an unhandled message leaves condition slots in the receiving
-		// instance on this tree (not this property's concern): use a
-		// throw-away instance and only watch that no daemon runs
-		if !k.quiet {
-			k.x.Cover("avoided:unhandled-message-to-a-kept-instance")
-		}
-		if path != "send" || k.unhandledSent[tm{t, msg}] {
-			return
-		}
-		k.unhandledSent[tm{t, msg}] = true
-		sc := k.scratch[t]
-		if sc == nil {
-			var serr *sl.Err
-			if sc, serr = k.makeInst("scratch", t, nil); serr != nil {
-				return
-			}
-			k.scratch[t] = sc
-		}
-		lv = sc
+	if unhandled && !k.quiet {
+		k.x.Cover("send:unhandled-message-to-a-kept-instance")
 	}
 	e := k.w.send(lv.m, msg, arg)
 	trace = trace[:0]
@@ -524,7 +650,11 @@ func (k *monitor) send(what string, lv *live, msg, path string) {
 			src += " 7"
 		}
 		src += ")"
-		res, err = k.eval(src)
+		if e.errs || unhandled {
+			res, err = k.evalGuarded(src)
+		} else {
+			res, err = k.eval(src)
+		}
 	} else {
 		bindings := slip.NewScope()
 		if 0 < arity(msg) {
@@ -535,6 +665,12 @@ func (k *monitor) send(what string, lv *live, msg, path string) {
 		})
 	}
 	got := append([]string{}, trace...)
+	if e.errs {
+		lv.after = "daemon-signals-error"
+	}
+	if unhandled {
+		lv.after = "unhandled-message"
+	}
 	if what == "final" {
 		key := fmt.Sprintf("send|%d|%s|%s|#%d", t, msg, path, k.nSend[tm{t, msg + path}])
 		k.nSend[tm{t, msg + path}]++
@@ -542,7 +678,7 @@ func (k *monitor) send(what string, lv *live, msg, path string) {
 		switch {
 		case unhandled:
 		case err != nil:
-			v += " => error " + err.Class
+			v += " => error"
 		default:
 			v += " => " + sl.Show(res)
 		}
@@ -645,7 +781,7 @@ func (k *monitor) checkFlavor(t int) {
 
 func newMonitor(x *fw.Ctx, c *Case, quiet bool) *monitor {
 	caseSerial++
-	return &monitor{x: x, c: c, w: newWorld(c), scope: slip.NewScope(), scratch: map[int]*live{}, unhandledSent: map[tm]bool{},
+	return &monitor{x: x, c: c, w: newWorld(c), scope: slip.NewScope(),
 		quiet: quiet, rec: map[string]string{}, recLbl: map[string]string{}, nSend: map[tm]int{}, nMake: map[int]int{},
 		early: map[int]*live{}, pre: fmt.Sprintf("c%dn%d", x.Index, caseSerial)}
 }
@@ -826,6 +962,25 @@ func (k *monitor) finalSweep() {
 			}
 		}
 	}
+	if k.quiet {
+		return
+	}
+	// failed sends to a kept instance: every flavor of a template case, the
+	// flavor with the longest precedence list of a seeded case
+	best := -1
+	for t := range c.Flavors {
+		if !k.w.defined[t] || c.Flavors[t].Abstract {
+			continue
+		}
+		if c.Tmpl != "" {
+			k.victimBlock(t)
+		} else if best < 0 || len(k.w.prec(best)) <= len(k.w.prec(t)) {
+			best = t
+		}
+	}
+	if 0 <= best {
+		k.victimBlock(best)
+	}
 }
 
 // referenceSteps is the reference order of the same forms: every flavor
@@ -937,7 +1092,9 @@ func init() {
 		Rule: "case = (flavor DAG of 1..5 flavors with up to 3 components each; per flavor: variables with and without defaults, listed and bare " +
 			":gettable/:settable/:initable options (bare ones also on flavors with components), :default-init-plist/:init-keywords, in a minority " +
 			":included-flavors, :abstract-flavor with met :required-instance-variables/:required-flavors; an assignment of primary/:before/:after/whopper " +
-			"methods (whoppers that continue and whoppers that do not) on messages :m :n :init and accessor names; a history). " +
+			"methods (whoppers that continue and whoppers that do not; in 1 case in 5 daemons that signal an error) on messages :m :n :init and accessor names; a history). " +
+			"One kept instance per case (every flavor in template cases) receives failed sends under ignore-errors (wrong argument count, an unknown message twice), " +
+			"each followed by the full sweep through both paths: self and the variable set must be the instance's own. " +
 			"First block: every admissible order of the 2..7 forms of template hierarchies (siblings, reversed siblings, chain, two users of one base, " +
 			"diamond, triple, deep sibling, crossed pairs) for each daemon kind, mixed kinds, :init and accessor messages, plain variable and keyword defaults over " +
 			"3- and 4-level chains and diamonds, bare options, non-continuing whoppers, included flavors, abstract flavors with met and unmet requirements; " +
